@@ -31,13 +31,14 @@ Via121 == <<n1, n2, n1>>
 Via1111 == <<n1, n1, n1, n1>>
 Via1212 == <<n1, n2, n1, n2>>
 
-\* crash-point classes: one record per Crash transition.  `snap` says whether the victim had already taken or
-\* installed a snapshot (marker in its WAL), `inflight` whether an entry proposed through the victim was unacknowledged
+\* crash-point classes for B1: one record per Crash transition.  `snap`: the victim has a snapshot marker in its WAL
+\* (taken or installed); `down`: nodes already down; `unsaved`: the Ready being processed carries entries the WAL does
+\* not hold yet; `waiting`: a client of this node is waiting for a reply.
 Emit ==
   \A n \in Nodes :
     (up[n] /\ ~up'[n] /\ crashes' = crashes + 1) =>
        PrintT("CRASHPT " \o ToJson([pc |-> pc[n], gate |-> GateOf(pc[n]), snap |-> (wal[n].snaps # {}),
-                                    applying |-> ~QEmpty(n), waiting |-> (waiting[n] # {}),
+                                    waiting |-> (waiting[n] # {}) \/ (resCh[n] # {}),
                                     down |-> Cardinality({m \in Nodes : ~up[m]}),
                                     unsaved |-> (rd[n].e2 > wal[n].ents)]))
 
